@@ -1,0 +1,42 @@
+# -*- coding: utf-8 -*-
+"""
+Transitive closures over one predicate, computed with a work list.
+
+rdflib's Graph.transitive_subjects / transitive_objects are recursive generators that go one Python
+stack frame deeper per step, so a chain of a thousand rdfs:subClassOf triples ends in a RecursionError.
+These functions return the same nodes (the start node included, every node once).
+"""
+from typing import List
+
+from .consts import RDFNode
+from .pytypes import GraphLike
+
+
+def transitive_subjects(graph: GraphLike, predicate: RDFNode, obj: RDFNode) -> List[RDFNode]:
+    """obj and every node from which obj can be reached through one or more `predicate` triples"""
+    seen = {obj}
+    found = [obj]
+    todo = [obj]
+    while todo:
+        current = todo.pop()
+        for s in graph.subjects(predicate, current):
+            if s not in seen:
+                seen.add(s)
+                found.append(s)
+                todo.append(s)
+    return found
+
+
+def transitive_objects(graph: GraphLike, subject: RDFNode, predicate: RDFNode) -> List[RDFNode]:
+    """subject and every node that can be reached from it through one or more `predicate` triples"""
+    seen = {subject}
+    found = [subject]
+    todo = [subject]
+    while todo:
+        current = todo.pop()
+        for o in graph.objects(current, predicate):
+            if o not in seen:
+                seen.add(o)
+                found.append(o)
+                todo.append(o)
+    return found
